@@ -782,7 +782,95 @@ def string_families(tier, seed):
   return fams
 
 
+# ------------------------------------------------------------------------------------------------------
+# E-states: the inline-markup machines of the WebVTT and SRT cue-text parsers.  A state is the token history; two
+# histories are merged when the parser they drive is in the same state (stack of open element kinds + ruby bookkeeping),
+# which is everything the parser's future behaviour reads.  Every transition runs the real reader on the cue text and
+# sends the resulting document downstream like any other C18 case.
+
+VTT_INLINE = ["x", "\n", "<b>", "</b>", "<ruby>", "</ruby>", "<rt>", "</rt>", "<00:00:01.500>", "<v A>", "</v>", "<c.red>", "</c>", "&amp;"]
+SRT_INLINE = ["x", "\n", "<b>", "</b>", "<i>", "</i>", "{u}", "{/u}", "<font color=\"red\">", "</font>", "<font>", "</x>"]
+
+
+def _vtt_machine_state(tokens):
+  """canonical parser state after `tokens` (uses the private parser class only to merge states; on any failure the
+  history itself is the state, i.e. nothing is merged)"""
+  try:
+    from ttconv.vtt.tokenizer import CueTextTokenizer
+    doc = model.ContentDocument()
+    p = model.P(doc)
+    parser = vtt_reader._TextCueParser(p, 0)   # pylint: disable=protected-access
+    try:
+      for tok in CueTextTokenizer("".join(tokens).strip("\r\n")):
+        parser.handle_token(tok)
+    except Exception as e:  # pylint: disable=broad-except
+      return ("raised", type(e).__name__, tuple(tokens[-2:]))
+    chain = []
+    el = parser.parent
+    n = 0
+    while el is not None and n < 64:
+      chain.append(type(el).__name__)
+      el = el.parent()
+      n += 1
+    return ("ok", tuple(chain), parser.ruby_rbc is None, parser.ruby_rtc is None, tokens[-1:] == ["\n"])
+  except Exception:  # pylint: disable=broad-except
+    return ("history", tuple(tokens))
+
+
+def _srt_machine_state(tokens):
+  try:
+    doc = model.ContentDocument()
+    p = model.P(doc)
+    parser = srt_reader._TextParser(p, 0)   # pylint: disable=protected-access
+    try:
+      parser.feed("".join(tokens))
+      parser.close()
+    except Exception as e:  # pylint: disable=broad-except
+      return ("raised", type(e).__name__, tuple(tokens[-2:]))
+    chain = []
+    el = parser.parent
+    n = 0
+    while el is not None and n < 64:
+      chain.append(type(el).__name__)
+      el = el.parent()
+      n += 1
+    return ("ok", tuple(chain), tokens[-1:] == ["\n"])
+  except Exception:  # pylint: disable=broad-except
+    return ("history", tuple(tokens))
+
+
+def _machine_family(name, fmt, alphabet, wrap, state_fn, depth):
+  from mc.kernel import StateFamily
+
+  def expand(history, acc):
+    global _DEDUP
+    if _DEDUP is None:
+      _DEDUP = set()
+    succ = []
+    for tok in alphabet:
+      h2 = list(history) + [tok]
+      case = {"fmt": fmt, "text": wrap("".join(h2)), "src": f"{name}:{len(h2)} tokens"}
+      check(case, acc)
+      succ.append((tok, state_fn(h2)))
+    return succ
+
+  def replay_check(case, acc):
+    h = case["history"]
+    for tok in alphabet:
+      check({"fmt": fmt, "text": wrap("".join(list(h) + [tok])), "src": name}, acc)
+  fam = StateFamily(name, [[]], expand, depth, canon0=lambda h: ("init",), timeout=TIME_LIMIT,
+                    check=lambda case, acc: replay_check(case, acc) if "history" in case else check(case, acc),
+                    note=f"all cue-text token histories over {len(alphabet)} inline tokens, merged on the parser state, depth {depth}")
+  return fam
+
+
+def machine_families(tier, seed):
+  d = 8 if tier == "quick" else 10
+  return [_machine_family("vtt-inline-machine", "vtt", VTT_INLINE, _wrap_vtt, _vtt_machine_state, d),
+          _machine_family("srt-inline-machine", "srt", SRT_INLINE, _wrap_srt, _srt_machine_state, d)]
+
+
 def plan(tier, seed):
   global _TIER
   _TIER = tier
-  return seed_families(tier, seed) + string_families(tier, seed) + corpus_families(tier, seed)
+  return seed_families(tier, seed) + string_families(tier, seed) + corpus_families(tier, seed) + machine_families(tier, seed)
